@@ -114,6 +114,7 @@ namespace R
       std::vector< T::StEv > st_log;
       std::vector< T::SwAct > sw_acts;
       std::vector< std::array< int, 3 > > ctl_log;
+      std::vector< std::array< int, 3 > > all_acts;  // every action invocation in call order (rule, begin, end), backtracked ones included
       long cov[ 16 ][ 4 ] = {};  // per rule: start, success, failure, unwind (what the coverage facility must count)
 
       void reset( long f )
@@ -129,6 +130,7 @@ namespace R
          sw_acts.clear();
          ctl_log.clear();
          memset( cov, 0, sizeof cov );
+         all_acts.clear();
       }
       void touch( int pos )
       {
@@ -237,15 +239,15 @@ namespace R
          }
          return ok( pos );
       }
-      template< typename Fa >
-      Res rmm( int lo, int hi, Fa&& a, int pos )
+      template< typename Fa, typename Fa0 >
+      Res rmm( int lo, int hi, Fa&& a, Fa0&& a0, int pos )  // a0: the same rule with actions off, for the closing not_at
       {
          return G( [ & ]( int q ) {
             Res r = rep( lo, a, q );
             if( r.k != OK ) return r;
             r = rep_opt( hi - lo, a, r.pos );
             if( r.k != OK ) return r;
-            Res n = not_at( a, r.pos );
+            Res n = not_at( a0, r.pos );
             if( n.k != OK ) return n;
             return ok( r.pos );
          },
@@ -456,6 +458,7 @@ namespace R
                const int ak = in.am ? act_kind_of( in.fam, I ) : 0;
                if( ak != 0 ) {
                   const bool is0 = ( ak == 2 || ak == 4 );
+                  all_acts.push_back( { I, pos, is0 ? -1 : r.pos } );
                   const int d = act_decision( I, pos, is0 ? -2 : r.pos, ak >= 3 );
                   if( d == 1 && ak >= 3 ) r = fail();  // only a bool action can veto (the decision is memoised per rule and span, whatever family asks)
                   if( d == 2 ) r = { AX, 0, I, pos, r.pos, -1 };
@@ -750,28 +753,28 @@ namespace R
             case REP_MAX1:
             case REP_MAX2:
             case REP_MAX3:
-            case REP_MAX4: return rmm( 0, op - REP_MAX0, A, pos );
+            case REP_MAX4: return rmm( 0, op - REP_MAX0, A, A0, pos );
             case REP_OPT1:
             case REP_OPT2:
             case REP_OPT3:
             case REP_OPT4: return rep_opt( op - REP_OPT1 + 1, A, pos );
             case REP_OPT2_2: return rep_opt( 2, AB, pos );
-            case RMM00: return rmm( 0, 0, A, pos );
-            case RMM01: return rmm( 0, 1, A, pos );
-            case RMM02: return rmm( 0, 2, A, pos );
-            case RMM03: return rmm( 0, 3, A, pos );
-            case RMM04: return rmm( 0, 4, A, pos );
-            case RMM11: return rmm( 1, 1, A, pos );
-            case RMM12: return rmm( 1, 2, A, pos );
-            case RMM13: return rmm( 1, 3, A, pos );
-            case RMM14: return rmm( 1, 4, A, pos );
-            case RMM22: return rmm( 2, 2, A, pos );
-            case RMM23: return rmm( 2, 3, A, pos );
-            case RMM24: return rmm( 2, 4, A, pos );
-            case RMM33: return rmm( 3, 3, A, pos );
-            case RMM34: return rmm( 3, 4, A, pos );
-            case RMM44: return rmm( 4, 4, A, pos );
-            case RMM12_2: return rmm( 1, 2, AB, pos );
+            case RMM00: return rmm( 0, 0, A, A0, pos );
+            case RMM01: return rmm( 0, 1, A, A0, pos );
+            case RMM02: return rmm( 0, 2, A, A0, pos );
+            case RMM03: return rmm( 0, 3, A, A0, pos );
+            case RMM04: return rmm( 0, 4, A, A0, pos );
+            case RMM11: return rmm( 1, 1, A, A0, pos );
+            case RMM12: return rmm( 1, 2, A, A0, pos );
+            case RMM13: return rmm( 1, 3, A, A0, pos );
+            case RMM14: return rmm( 1, 4, A, A0, pos );
+            case RMM22: return rmm( 2, 2, A, A0, pos );
+            case RMM23: return rmm( 2, 3, A, A0, pos );
+            case RMM24: return rmm( 2, 4, A, A0, pos );
+            case RMM33: return rmm( 3, 3, A, A0, pos );
+            case RMM34: return rmm( 3, 4, A, A0, pos );
+            case RMM44: return rmm( 4, 4, A, A0, pos );
+            case RMM12_2: return rmm( 1, 2, AB, AB0, pos );
 
             case RAISE_OF: return { RAISE, 0, a, pos, pos, -1 };
             case TC_RF:
@@ -834,6 +837,7 @@ namespace R
                   Res r = A( q );
                   if( r.k != OK ) return r;
                   trail.push_back( { 2, int16_t( RULE_ACTION_ID ), r.pos, 1, q } );
+                  all_acts.push_back( { RULE_ACTION_ID, q, r.pos } );
                   const int d = act_decision( RULE_ACTION_ID, q, r.pos, true );
                   if( d == 1 ) return fail();
                   if( d == 2 ) return Res{ AX, 0, RULE_ACTION_ID, q, r.pos, -1 };
@@ -846,6 +850,7 @@ namespace R
                if( !am.am ) return ok( pos );
                const int id = ( op == APPLY ) ? RULE_ACTION_ID : RULE_ACTION0_ID;
                trail.push_back( { 2, int16_t( id ), ( op == APPLY ) ? pos : -1, 1, pos } );
+               all_acts.push_back( { id, pos, ( op == APPLY ) ? pos : -1 } );
                const int d = act_decision( id, pos, ( op == APPLY ) ? pos : -2, true );
                if( d == 1 ) {
                   trail.pop_back();
